@@ -33,7 +33,9 @@ def graphs():
     g = T.fn("g", ["out", "cfg", "d"], ["res"], defaults={"d": {"$list": []}}, behav={"py": "(tuple(out), tuple(d), id(cfg))"}, mutate="d")
     t = T.fn("t", ["x", "tags"], ["tg"], defaults={"tags": ["a", "b"]}, behav={"py": "tuple(tags)"})
     u = T.fn("u", ["tg", "slots"], ["sl"], defaults={"slots": [{"$list": []}, "k"]}, behav={"py": "tuple(slots[0])"}, mutate_member="slots")
-    flat = T.prog([f, g, t, u])
+    # a frozen dataclass default holding a list: immutable on the surface only
+    fz = T.fn("fz", ["x", "box"], ["fzo"], defaults={"box": {"$frozen": []}}, behav={"py": "tuple(box.items)"}, mutate_frozen="box")
+    flat = T.prog([f, g, t, u, fz])
     fi = T.fn("fi", ["x", "acc"], ["out"], defaults={"acc": {"$list": []}}, behav={"py": "list(acc)"}, mutate="acc")
     inner = T.prog([fi], name="inr")
     mid = T.prog([T.gnode("inr", inner, rename_in={"x": "xx"})], name="mid")
@@ -67,6 +69,9 @@ class Env:
             mm = spec.get("mutate_member")
             if mm:
                 c.args[mm][0].append(("mm", spec["name"], len(c.args[mm][0])))
+            mf = spec.get("mutate_frozen")
+            if mf:
+                c.args[mf].items.append(("mf", spec["name"], len(c.args[mf].items)))
             for p in ("cfg", "x"):
                 if p in c.args:
                     self.recv.append((c.nid, p, id(c.args[p])))
@@ -554,7 +559,7 @@ def rebind_after_run(acc):
     """'bound values reach the node as the very object that was bound' along derivation histories of a graph object that has already
     RUN: re-bind to another object, unbind and supply, select / with_entrypoint (binding kept) - flat and nested, both runners, on
     the same and on a fresh runner."""
-    other, supplied = ["BOUND-OTHER"], ["SUPPLIED"]
+    other, supplied, kept = ["BOUND-OTHER"], ["SUPPLIED"], ["KEPT"]
     for kind in ("sync", "async"):
         for gname in ("flat", "nested"):
             for fresh_runner in (False, True):
@@ -568,13 +573,17 @@ def rebind_after_run(acc):
                     orig_hook(c, phase)
                     if "cfg" in c.args:
                         seen.append(c.args["cfg"])
+                    if "acc" in c.args:
+                        accs.append(c.args["acc"])
 
+                accs = []
                 env.h.body_hook = hook
 
                 def run(graph, extra=None, slot="A"):
                     from ..vloop import VLoop
 
                     del seen[:]
+                    del accs[:]
                     runner = env.runners[(slot, kind)]
                     vals = {xn: xo, **(extra or {})}
                     with seams.use(env.h):
@@ -587,12 +596,15 @@ def rebind_after_run(acc):
                         finally:
                             loop.close()
 
+                gb = g.bind(acc=kept)
                 steps = [
                     ("the graph as bound", lambda: g, None, BOUND),
                     ("g.bind(cfg=other) derived after g ran", lambda: g.bind(cfg=other), None, other),
                     ("g.unbind('cfg') derived after g ran, cfg supplied", lambda: g.unbind("cfg"), {"cfg": supplied}, supplied),
                     ("g.select(...) derived after g ran", lambda: g.select(*list(g.outputs)[-1:]), None, BOUND),
                     ("g.bind(cfg=other).bind(cfg=BOUND)", lambda: g.bind(cfg=other).bind(cfg=BOUND), None, BOUND),
+                    ("gb = g.bind(acc=KEPT) (a defaulted parameter bound)", lambda: gb, None, BOUND),
+                    ("gb.unbind('acc') derived after gb = g.bind(acc=KEPT) ran: back to a fresh copy of the default", lambda: gb.unbind("acc"), None, BOUND),
                     ("the graph as bound, again", lambda: g, None, BOUND),
                 ]
                 w = {"rebind_after_run": True}
@@ -604,6 +616,12 @@ def rebind_after_run(acc):
                         break
                     acc.evaluations += 1
                     acc.key(("rebind-after-run", kind, gname, fresh_runner, label))
+                    if "acc=KEPT" in label and r.status.value == "completed":
+                        want_kept = "unbind" not in label
+                        bad = [a for a in accs if (a is kept) != want_kept]
+                        if not accs or bad:
+                            acc.violation({"symptom": "stale-or-wrong-bound-object", "mode": "rebind-after-run", "param": "defaulted"}, w, f"{gname}/{kind} ({'fresh' if fresh_runner else 'same'} runner): {label}: the function received acc = {[jsonable(a) for a in accs]} ({'the bound object' if want_kept else 'a fresh copy of the signature default, not the formerly bound object'} expected)")
+                            break
                     if r.status.value != "completed" or not seen or any(o is not expect for o in seen):
                         acc.violation({"symptom": "bound-object-copied" if seen and all(o == expect for o in seen) else "stale-or-wrong-bound-object", "mode": "rebind-after-run"}, w, f"{gname}/{kind} ({'fresh' if fresh_runner else 'same'} runner): {label}: status {r.status.value}, the node received {[jsonable(o) for o in seen]} - expected the very object {jsonable(expect)}")
                         break
